@@ -3,7 +3,7 @@
 From Coq Require Import List NArith ZArith Bool.
 From Coq Require Import Strings.Byte.
 From UF Require Import Base.Lit Base.Bytes Model.Options Model.Domain Model.NetRule Model.Request Model.Match Model.Engines
-  Proofs.SplitLemmas Proofs.C01Proofs.
+  Model.Storage Proofs.SplitLemmas Proofs.C01Proofs Proofs.EndToEnd.
 Import ListNotations.
 
 (* For EVERY hash function (so collisions and the choice of bucket are invisible by construction), every
@@ -11,11 +11,21 @@ Import ListNotations.
    any ids, any insertion order: the histogram is whatever the fold makes it), an intact storage (C11), and
    every request: the texts MatchAll reports are exactly the texts of the rules that match individually. *)
 Theorem C01_engine_equals_scan : forall hash psl retr rules q t,
-  parsed rules -> (forall f idx, retr idx = Some f <-> In (f, idx) rules) ->
+  parsed rules -> (forall f idx, In (f, idx) rules -> retr idx = Some f) ->
   (In t (map nr_text (match_all hash psl retr (build_net hash rules) q)) <->
    exists f, In f (map fst rules) /\ rmatch psl f q = true /\ nr_text f = t).
 Proof. exact engine_equals_scan. Qed.
 Print Assumptions C01_engine_equals_scan.
+
+(* end to end — storage, scanner, engine construction, lookup — with no assumption but the domain of the
+   storage index (distinct 32-bit list ids, lists shorter than 2 GiB): the retrieval function is the storage's
+   own (C11) and the rules are what the scanner yields *)
+Theorem C01_end_to_end : forall hash psl s scanned q t,
+  storage_ok s -> storage_scan s = Ok scanned ->
+  (In t (map nr_text (match_all hash psl (retr_net_of s) (build_net hash (net_rules_of scanned)) q)) <->
+   exists f, In f (map fst (net_rules_of scanned)) /\ rmatch psl f q = true /\ nr_text f = t).
+Proof. exact network_engine_end_to_end. Qed.
+Print Assumptions C01_end_to_end.
 
 (* never adds a non-matching rule — for ANY behaviour of the storage on the indexes of the list
    (whatever it hands out for a filed index is a rule of the list with that index), failing retrievals included *)
